@@ -97,9 +97,13 @@ fn run_case(seed: u64, index: u64, rep: &mut Report) {
     alloc::start_tracking();
     let sq_size = *rng.pick(&[2u32, 4, 16, 64]);
     let direct_n: u32 = if rng.chance(1, 2) { 8 } else { 0 };
+    // Experiments: REALMIX_SQPOLL=1 puts every history on a kernel-thread ring.
+    let kernel_thread = index % 5 == 3 || std::env::var("REALMIX_SQPOLL").is_ok();
     let ring = alloc::a10(|| {
         let cfg = Ring::config().with_submission_queue_size(sq_size);
         let cfg = if direct_n > 0 { cfg.with_direct_descriptors(direct_n) } else { cfg };
+        // Every fifth history runs on a ring with a (real) kernel submission thread.
+        let cfg = if kernel_thread { cfg.with_kernel_thread() } else { cfg };
         cfg.build()
     });
     let mut ring = match ring {
@@ -537,7 +541,9 @@ fn run_case(seed: u64, index: u64, rep: &mut Report) {
         found.push((prop, sig, format!("{v:?}: memory freed during the history was modified afterwards (the real kernel completed an operation into it), or freed twice")));
     }
     if !leaks.is_empty() {
-        found.push(("C06", "real:state-leak".into(), format!("{} block(s) allocated inside a10 (sizes {:?}) are still live after every operation, result, descriptor, queue handle and the Ring were dropped", leaks.len(), leaks.iter().map(|l| l.size).take(8).collect::<Vec<_>>())));
+        // On a ring with a kernel submission thread the Ring's drop races with that thread
+        // (known finding D14): keep the two apart.
+        found.push(("C06", (if kernel_thread { "real:state-leak:kernel-thread" } else { "real:state-leak" }).into(), format!("{} block(s) allocated inside a10 (sizes {:?}) are still live after every operation, result, descriptor, queue handle and the Ring were dropped", leaks.len(), leaks.iter().map(|l| l.size).take(8).collect::<Vec<_>>())));
     }
     let fds_after = open_fds();
     if fd_watchdog {
@@ -545,7 +551,7 @@ fn run_case(seed: u64, index: u64, rep: &mut Report) {
     }
     rep.count("real_descriptor_ops", fd_ops);
     if fds_after != fds_before && !fd_watchdog {
-        found.push(("C07", "real:descriptor-count-changed".into(), format!("{fds_before} descriptors open before the history, {fds_after} after everything was dropped")));
+        found.push(("C07", (if kernel_thread { "real:descriptor-count-changed:kernel-thread" } else { "real:descriptor-count-changed" }).into(), format!("{fds_before} descriptors open before the history, {fds_after} after everything was dropped")));
     }
     alloc::CONSUMER_PHASE_HOLDS.store(true, std::sync::atomic::Ordering::SeqCst);
     rep.count("real_ring_polls", ring_polls);
@@ -558,6 +564,7 @@ fn run_case(seed: u64, index: u64, rep: &mut Report) {
     for c in &chans {
         rep.cell(format!("real-chan:{:?}", c.kind));
     }
+    rep.cell(if kernel_thread { "real-ring:kernel-thread" } else { "real-ring:default" });
     if std::env::var("VERIF_REAL_DEBUG").is_ok() {
         for m in crate::mon::logsink::take() {
             eprintln!("log: {m}");
